@@ -117,6 +117,17 @@ func errClass(err error) string {
 	return FileErrClass(err)
 }
 
+// c08NestRegion: where a BasePathFs rooted at inner on top of a BasePathFs rooted at outer works. A rooted inner root
+// is cleaned at the virtual root first ("/../x" is "/x" below the outer root); a relative one is handed to the outer
+// file system as it is, which resolves it against its own root ("../sub/x" below "/base/sub" is "/base/sub/x" —
+// and a relative inner root that leaves the outer root makes every name escape).
+func c08NestRegion(outer, inner string) string {
+	if strings.HasPrefix(inner, "/") || inner == "" {
+		return filepath.Join(outer, filepath.Clean("/"+inner))
+	}
+	return filepath.Clean(filepath.Join(outer, inner))
+}
+
 func c08Op(t []string) string {
 	kind, root, method := t[1], string(corr.UnHex(t[2])), t[3]
 	name := string(corr.UnHex(t[4]))
@@ -136,7 +147,7 @@ func c08Op(t []string) string {
 		// particular never leaves the outer root, however the inner root is spelled ("/../x")
 		parts := strings.SplitN(root, "|", 2)
 		fs = afero.NewBasePathFs(afero.NewBasePathFs(m, parts[0]), parts[1])
-		croot = filepath.Join(parts[0], filepath.Clean("/"+parts[1]))
+		croot = c08NestRegion(parts[0], parts[1])
 	case "bpre": // a source that is not an Lstater (a RegexpFs that lets everything through)
 		fs = afero.NewBasePathFs(afero.NewRegexpFs(m, regexp.MustCompile(``)), root)
 	case "sub":
@@ -146,12 +157,23 @@ func c08Op(t []string) string {
 		parts := strings.SplitN(root, "|", 2)
 		sub, _ := afero.NewIOFS(afero.NewBasePathFs(m, parts[0])).Sub(parts[1])
 		fs = afero.FromIOFS{FS: sub}
-		croot = filepath.Join(parts[0], filepath.Clean("/"+parts[1]))
+		croot = c08NestRegion(parts[0], parts[1])
 	case "http":
 	}
 	if method == "rename" {
 		// renaming a directory into its own subtree is ill-formed for the source (POSIX: EINVAL)
-		o, n := filepath.Clean(croot+"/"+name), filepath.Clean(croot+"/"+name2)
+		// (both names as the stack resolves them: each level joins its cleaned root in front and cleans, innermost first)
+		resolve := func(nm string) string {
+			roots := []string{root}
+			if kind == "nest" {
+				roots = strings.SplitN(root, "|", 2)
+			}
+			for i := len(roots) - 1; i >= 0; i-- {
+				nm = filepath.Clean(filepath.Join(filepath.Clean(roots[i]), nm))
+			}
+			return nm
+		}
+		o, n := resolve(name), resolve(name2)
 		if o == n || strings.HasPrefix(n, strings.TrimSuffix(o, "/")+"/") {
 			return "skipped-illformed"
 		}
